@@ -9,6 +9,7 @@ import OmplModel.Proofs.PhsVolume
 import OmplModel.Proofs.PhsOrdered
 import OmplModel.Proofs.PhsNonvac
 import OmplModel.Proofs.PhsEdge
+import OmplModel.Proofs.PhsFixed
 /-!
 # C15 — informed sampling returns only, and all of, the states that can still help
 
@@ -581,6 +582,74 @@ theorem update_history {α : Type} [Num α] (s : Sampler α) (p1 p2 : Phs α) (c
     (cs.foldl (fun s c' => s.updateRestoring all c') s).updateRestoring all c = s.updateRestoring all c :=
   ⟨PhsEdge.update_not_history_independent s p1 p2 c1 c2 hs h11 h21 h12 h22,
    PhsEdge.updateRestoring_history_independent all cs s c⟩
+
+
+/-! ## The direct sampler AS CODED NOW (fixes 09980379c = F36, 5852532a8 = F130)
+
+`sample2F` / `sample3F` / `updateF` / `hcostF` are the current code (the check selects them from the tree under
+test); `sample2` / `sample3` / `update` / `hcost` used in the theorems further up are their building blocks and at
+the same time the code BEFORE the two fixes — those theorems stay as lemmas and `_old_` witnesses. -/
+
+/-- **`sample_success_sound` for the current code** [AF]: every conclusion of the pre-fix theorem, now for
+`sampleUniform(state, maxCost)` with the PHS list restored from `allPhsPtrs_` on every call and the early return. -/
+theorem direct_sampler_success_sound {α : Type} [Num α] {ρ : Type} (s : Sampler α) (inB : List α × ρ → Bool)
+    (fin : Bool) (c : α) (ds : List (Draw α ρ)) (cur : List α × ρ)
+    (hbase : ∀ d ∈ ds, inB (d.baseInf, d.baseRest) = true)
+    (hf : (s.sample2F inB fin c ds cur).2.found = true) :
+    inB (s.sample2F inB fin c ds cur).2.st = true ∧
+    DirectOk (s.updateF c) inB fin ds (s.sample2F inB fin c ds cur).2.st ∧
+    (s.sample2F inB fin c ds cur).2.rest <:+ ds ∧
+    (fin = true → (s.sample2F inB fin c ds cur).2.iters ≤ s.numIters ∧
+      ds.length ≤ (s.sample2F inB fin c ds cur).2.rest.length + s.numIters) ∧
+    (fin = false → ds.length ≤ (s.sample2F inB fin c ds cur).2.rest.length + 1) :=
+  PhsFixed.sample2F_success_sound s inB fin c ds cur hbase hf
+
+/-- three-argument form of the current code [AF]: the lower bound is tested on the heuristic over ALL start/goal
+pairs (`hcostF`), so a state whose true heuristic cost is below `minCost` is never returned (the pre-fix code
+tested it on the PHSs that survived earlier bounds only). -/
+theorem direct_sampler3_success_sound {α : Type} [Num α] {ρ : Type} (s : Sampler α) (inB : List α × ρ → Bool)
+    (fin : Bool) (minC c : α) (ds : List (Draw α ρ)) (cur : List α × ρ) :
+    ((s.sample3F inB fin minC c ds cur).2.found = true →
+      DirectOk (s.updateF c) inB fin ds (s.sample3F inB fin minC c ds cur).2.st ∧
+      ∃ sc, (if fin then s.updateF c else s).hcostF (s.sample3F inB fin minC c ds cur).2.st.1 = some sc ∧
+        ((¬ sc < minC) ∨ minC < sc)) ∧
+    (s.sample3F inB fin minC c ds cur).2.rest <:+ ds ∧
+    ((s.sample3F inB fin minC c ds cur).2.nullPhs = false →
+      ds.length ≤ (s.sample3F inB fin minC c ds cur).2.rest.length + s.numIters) := by
+  obtain ⟨_, h2, h3, h4, _⟩ := PhsFixed.sample3F_success_sound s inB fin minC c ds cur
+  refine ⟨fun hf => ?_, h3, h4⟩
+  obtain ⟨hd, sc, hsc, hl⟩ := h2 hf
+  exact ⟨hd, sc, hsc, (lowerOk_true_iff minC sc).1 hl⟩
+
+/-- **A bound no PHS can improve on is answered `false`, consuming no draw** [AF, every `Num α` incl. `Float`]:
+single start/goal pair, `¬ cmin < maxCost` — no length, rotation or rounding side condition (contrast: the pre-fix
+code needed exact arithmetic for this, `direct_no_success_at_or_below_focal_distance`, and failed under rounding: F130). -/
+theorem direct_sampler_no_success_at_or_below_focal_distance {α : Type} [Num α] {ρ : Type} (s : Sampler α)
+    (inB : List α × ρ → Bool) (c : α) (ds : List (Draw α ρ)) (cur : List α × ρ) (p : Phs α)
+    (hs : s.all = [p]) (hc : ¬ p.cmin < c) :
+    (s.sample2F inB true c ds cur).2.found = false ∧ (s.sample2F inB true c ds cur).2.rest = ds :=
+  PhsFixed.directF_no_success_at_or_below_focal_distance s inB c ds cur p hs hc
+
+/-- **The current `updatePhsDefinitions` is history independent** [AF]: whatever bounds were passed before
+(lower, higher, any order), the sampler after a call with `c` is the one a fresh sampler would have
+(contrast: `update_history`, first part, for the pre-fix code — F36). -/
+theorem direct_sampler_update_history_independent {α : Type} [Num α] (cs : List α) (s : Sampler α) (c : α) :
+    (cs.foldl (fun s c' => s.updateF c') s).updateF c = s.updateF c :=
+  PhsFixed.updateF_history_independent cs s c
+
+/-- **Current code over ℝ**: a successful finite-bound sample is in bounds, lies in a PHS of the working list and
+its heuristic cost — both over the working list and over ALL start/goal pairs (`heuristicSolnCost` as coded now) —
+is strictly below `maxCost`. -/
+theorem direct_sampler_success_cost_below {ρ : Type} (s : Sampler ℝ) (inB : List ℝ × ρ → Bool) (c : ℝ)
+    (ds : List (Draw ℝ ρ)) (cur : List ℝ × ρ)
+    (hbase : ∀ d ∈ ds, inB (d.baseInf, d.baseRest) = true)
+    (hall : ∀ p ∈ (s.updateF c).phss, p.c = c)
+    (hf : (s.sample2F inB true c ds cur).2.found = true) :
+    inB (s.sample2F inB true c ds cur).2.st = true ∧
+    (s.updateF c).isInAny (s.sample2F inB true c ds cur).2.st.1 = true ∧
+    (∃ h, (s.updateF c).hcost (s.sample2F inB true c ds cur).2.st.1 = some h ∧ h < c) ∧
+    (∃ h', s.hcostF (s.sample2F inB true c ds cur).2.st.1 = some h' ∧ h' < c) :=
+  PhsFixed.direct_successF_cost_below s inB c ds cur hbase hall hf
 
 /-! ## Non-vacuity of the geometric hypotheses -/
 
